@@ -16,6 +16,7 @@ import Driver.Flow
 import Driver.CHelpers
 import Driver.Amp
 import Driver.Frame
+import Driver.TlsExt
 import Driver.KeyUpdate
 import Driver.StreamTable
 
@@ -98,6 +99,7 @@ def step (w : World) (line : String) : World × String :=
       let (s, o) := Drv.stepAmp w.amp toks
       ({ w with amp := s }, o)
     else if t.startsWith "frame." then (w, Drv.stepFrame toks)
+    else if t.startsWith "tlsx." then (w, Drv.stepTlsExt toks)
     else if t.startsWith "ku." then
       let (s, o) := Drv.stepKu w.ku toks
       ({ w with ku := s }, o)
